@@ -783,5 +783,6 @@ FCPPT_RECORD_MAKE_LABEL(ty);
 int maxlen();
 void register_a();
 void register_b();
+void register_c();
 void register_ctor();
 } // namespace c03
